@@ -792,13 +792,29 @@ def r15(model: Model, rep: Report, rule: str = "C01.R15"):
                             other.append(show(idt) if idt is not None else "?")
                     else:
                         other.append(show(el)[:40])
-            elif pc[0] == "comp" and len(pc[3]) == 1 and pc[2][0] == "new" and pc[2][1] == "ChannelIdentifier":
-                dom, conds = pc[3][0]
+            elif pc[0] == "comp" and len(pc[3]) >= 1 and pc[2][0] == "new" and pc[2][1] == "ChannelIdentifier":
+                # one generator ranges over the qubits (a list field, or a display of scalar fields) and feeds ``_id``; any further generator (the channels
+                # per qubit) ranges over a display that is not empty; nothing is filtered
                 idt = dict(pc[2][2]).get("_id")
-                if dom[0] == "attr" and dom[1] == s_ and dom[2] in lists and not conds and idt is not None and idt[0] == "bound":
-                    ids_list.add(dom[2])
-                else:
+                got_l, got_s, bad = set(), set(), not (idt is not None and idt[0] == "bound")
+                for dom, conds in pc[3]:
+                    if conds:
+                        bad = True
+                    elif not bad and idt[3] in (show(dom), show(_plain_display(dom))):
+                        dom = _plain_display(dom)
+                        if dom[0] == "attr" and dom[1] == s_ and dom[2] in lists:
+                            got_l.add(dom[2])
+                        elif dom[0] in ("list", "tuple") and dom[1] and all(x[0] == "attr" and x[1] == s_ and x[2] in scalars for x in dom[1]):
+                            got_s.update(x[2] for x in dom[1])
+                        else:
+                            bad = True
+                    elif not (_plain_display(dom)[0] in ("list", "tuple") and len(_plain_display(dom)[1]) >= 1 and not any(x[0] == "star" for x in _plain_display(dom)[1])):
+                        bad = True
+                if bad or not (got_l or got_s):
                     other.append(f"{show(pc)[:60]}")
+                else:
+                    ids_list |= got_l
+                    ids_scalar |= got_s
             else:
                 other.append(show(pc)[:60])
         n += 1
